@@ -314,7 +314,18 @@ pub(crate) fn gen_key(outfile: Option<String>, env_pass: bool) -> Result<(), any
     };
 
     let is_text = true;
-    let mut keyring = open_output(outfile.as_deref(), is_text)?;
+    let mut keyring: Box<dyn Write> = if let Some(ref outfile) = outfile {
+        // Add the new key to the end of an existing keyring instead of
+        // replacing the keys that are already there.
+        Box::new(
+            std::fs::OpenOptions::new()
+                .create(true)
+                .append(true)
+                .open(outfile)?,
+        )
+    } else {
+        open_output(None, is_text)?
+    };
     keyring.write_all(key_output.as_bytes())?;
     keyring.flush()?;
 
